@@ -408,6 +408,43 @@ fn vanishing_candidates<V: Fv>(ctx: &Ctx, rep: &mut Report) {
         let mut f2 = f.clone();
         f2[a] += da;
         f2[b] += db;
+        // every second job: g is changed the same way, so that f' and g' share that root modulo q
+        // (h f = g can then hold although f is not invertible; the resultants share the factor q)
+        let mut g = g;
+        let both = ji % 2 == 1;
+        if both {
+            let vg = (0..n).fold(0i64, |acc, i| (acc + spec::modq(g[i]) * pw[i]) % q);
+            let mut bestg: Option<(i64, usize, i64, usize, i64)> = None;
+            for a2 in 0..n {
+                for da2 in [-2i64, -1, 1, 2] {
+                    if (g[a2] + da2).abs() > lim {
+                        continue;
+                    }
+                    let need = spec::modq(-vg - da2 * pw[a2]);
+                    for db2 in [-2i64, -1, 1, 2] {
+                        let t = need * spec::powm(spec::modq(db2), q - 2) % q;
+                        if let Some(&b2) = idx.get(&t) {
+                            if b2 != a2 && (g[b2] + db2).abs() <= lim {
+                                let cost = (g[a2] + da2).pow(2) - g[a2].pow(2) + (g[b2] + db2).pow(2) - g[b2].pow(2);
+                                if bestg.map(|x| cost < x.0).unwrap_or(true) {
+                                    bestg = Some((cost, a2, da2, b2, db2));
+                                }
+                            }
+                        }
+                    }
+                }
+            }
+            match bestg {
+                Some((_, a2, da2, b2, db2)) => {
+                    g[a2] += da2;
+                    g[b2] += db2;
+                    rep.count("candidates_with_f_and_g_sharing_a_root", 1);
+                }
+                None => return,
+            }
+        }
+        let g_first = g.clone();
+        let g: Vec<i64> = b0[0].iter().map(|&x| x as i64).collect();
         // harness-side sanity: f2 vanishes at that slot and nowhere else
         let f2i: Vec<i16> = f2.iter().map(|&x| x as i16).collect();
         let zeros: Vec<usize> = match monitored(|| vh::ntt(&f2i)) {
@@ -432,7 +469,7 @@ fn vanishing_candidates<V: Fv>(ctx: &Ctx, rep: &mut Report) {
             }
         };
         push_poly(&f2);
-        push_poly(&g);
+        push_poly(&g_first);
         push_poly(&f);
         push_poly(&g);
         if values.iter().any(|v| v.abs() > 5) {
